@@ -178,7 +178,8 @@ def refused_at_probe(s, r):
 
 
 def run(chk):
-    build, oracle, tables = emucheck.setup(chk, extra_units=("guards", "chan", "sys", "taskev", "dispatch"))
+    build, oracle, tables = emucheck.setup(chk, extra_units=("guards", "chan", "sys", "taskev", "dispatch", "evspec"))
+    chk.trusted_base.append('translate/units/evspec.py (renderer of translate/units/vparse.py, subclassed): ev_spec.c advance_out, print_arg, advance_in, parse_printf_format, parse_arg_name, ev_spec_find_arg, format_region, ev_spec_print and model.c model_event_print are rendered into coq/Gen/EvSpec_gen.v, EvSpecWalk_gen.v, EvSpecModel_gen.v on every run; memcpy of the eight integer types, memchr, snprintf for the formats in use (PRI* macros as on LP64 glibc), strcmp, isalnum, the type_fmt table and model_evspec_find are hand-written in coq/Tools/EvSpecPre.v, EvSpecWalkPre.v, EvSpecModelPre.v from the functions of coq/Tools/EvSpecDefs.v')
     chk.assumptions = [
         "listed = the evlist of each model as dumped from the compiled source (cross-checked on every run against the ovnievents tool)",
         "exceptions, as the property states them: the base model's B and U categories ignore the value byte; the legacy Nanos6 "
